@@ -134,6 +134,40 @@ class _ListStruct(list, ImmutableMixin, _IteratorProxyMixin):
         setattr(self._instance, getattr(self._field_definition, "_name", None), copied)
         return res
 
+    def __delitem__(self, key):
+        self._raise_if_immutable()
+        copied = self[:]
+        copied.__delitem__(key)
+        setattr(self._instance, getattr(self._field_definition, "_name", None), copied)
+
+    def sort(self, *, key=None, reverse=False):
+        self._raise_if_immutable()
+        copied = self[:]
+        copied.sort(key=key, reverse=reverse)
+        setattr(self._instance, getattr(self._field_definition, "_name", None), copied)
+
+    def reverse(self):
+        self._raise_if_immutable()
+        copied = self[:]
+        copied.reverse()
+        setattr(self._instance, getattr(self._field_definition, "_name", None), copied)
+
+    def __iadd__(self, other):
+        self._raise_if_immutable()
+        copied = self[:]
+        copied += other
+        name = getattr(self._field_definition, "_name", None)
+        setattr(self._instance, name, copied)
+        return getattr(self._instance, name)
+
+    def __imul__(self, n):
+        self._raise_if_immutable()
+        copied = self[:]
+        copied *= n
+        name = getattr(self._field_definition, "_name", None)
+        setattr(self._instance, name, copied)
+        return getattr(self._instance, name)
+
     def __getstate__(self):
         return {
             "the_instance": self._instance,
@@ -271,15 +305,39 @@ class _DequeStruct(deque, ImmutableMixin, _IteratorProxyMixin):
         setattr(self._instance, getattr(self._field_definition, "_name", None), copied)
         return res
 
-    def rotate(self, n: int) -> None:  # pylint: disable=signature-differs
+    def rotate(self, n: int = 1) -> None:
         self._raise_if_immutable()
-        # no need to validate again
-        super().rotate(n)
+        copied = deque(self)
+        copied.rotate(n)
+        setattr(self._instance, getattr(self._field_definition, "_name", None), copied)
 
     def reverse(self) -> None:
         self._raise_if_immutable()
-        # no need to validate again
-        super().reverse()
+        copied = deque(self)
+        copied.reverse()
+        setattr(self._instance, getattr(self._field_definition, "_name", None), copied)
+
+    def __delitem__(self, key):
+        self._raise_if_immutable()
+        copied = deque(self)
+        del copied[key]
+        setattr(self._instance, getattr(self._field_definition, "_name", None), copied)
+
+    def __iadd__(self, other):
+        self._raise_if_immutable()
+        copied = deque(self)
+        copied += other
+        name = getattr(self._field_definition, "_name", None)
+        setattr(self._instance, name, copied)
+        return getattr(self._instance, name)
+
+    def __imul__(self, n):
+        self._raise_if_immutable()
+        copied = deque(self)
+        copied *= n
+        name = getattr(self._field_definition, "_name", None)
+        setattr(self._instance, name, copied)
+        return getattr(self._instance, name)
 
     def __getstate__(self):
         return {
@@ -374,12 +432,34 @@ class _DictStruct(dict, ImmutableMixin):
         setattr(self._instance, getattr(self._field_definition, "_name", None), copied)
         return res
 
-    def pop(self, k):
+    def pop(self, k, *default):
         self._raise_if_immutable()
         copied = self.copy()
-        res = copied.pop(k)
+        res = copied.pop(k, *default)
         setattr(self._instance, getattr(self._field_definition, "_name", None), copied)
         return res
+
+    def popitem(self):
+        self._raise_if_immutable()
+        copied = self.copy()
+        res = copied.popitem()
+        setattr(self._instance, getattr(self._field_definition, "_name", None), copied)
+        return res
+
+    def setdefault(self, key, default=None):
+        self._raise_if_immutable()
+        copied = self.copy()
+        res = copied.setdefault(key, default)
+        setattr(self._instance, getattr(self._field_definition, "_name", None), copied)
+        return res
+
+    def __ior__(self, other):
+        self._raise_if_immutable()
+        copied = self.copy()
+        copied.update(other)
+        name = getattr(self._field_definition, "_name", None)
+        setattr(self._instance, name, copied)
+        return getattr(self._instance, name)
 
     def clear(self) -> None:
         self._raise_if_immutable()
